@@ -183,6 +183,13 @@ func plans(c *core.Ctx) []plan {
 		{name: "pb2.Maps", wireN: 2, small: true},
 		{name: "pb2.Requireds", wireN: 2, small: true},
 		{name: "pb2.PartialRequired", wireN: 3, wireAll: true},
+		// a required field of every kind, message and group included, alone in its message
+		{name: "goproto.proto.testrequired.Message", wireN: 2, wireAll: true},
+		{name: "goproto.proto.testrequired.Group", wireN: 2, wireAll: true},
+		{name: "opaque.goproto.proto.testrequired.Message", wireN: 2, wireAll: true},
+		{name: "opaque.goproto.proto.testrequired.Group", wireN: 2, wireAll: true},
+		{name: "goproto.proto.testrequired.Bytes", wireN: 2, wireAll: true},
+		{name: "goproto.proto.testrequired.Sint64", wireN: 2, wireAll: true},
 	}
 	if !q {
 		p = append(p, plan{name: "goproto.proto.testeditions.TestAllTypes", wireN: 2},
